@@ -280,6 +280,7 @@ static void child_finish(const sres_t *o)
     {
         void *sites[4];
         int n = env_live_sites(sites, 4);
+        env_live_dump();
         sym = "leak-after-teardown";
         if (n > 0)
         {
@@ -446,6 +447,7 @@ int main(int argc, char **argv)
                 void *sites[4];
                 char site[128] = "";
                 int n = env_live_sites(sites, 4);
+                env_live_dump();
                 if (n > 0) addr_func(sites[0], site, sizeof(site));
                 r.violation = 1;
                 snprintf(r.key, sizeof(r.key), "%s|leak-after-teardown%s%s", S->name, site[0] ? "|alloc-in=" : "", site);
